@@ -5,6 +5,7 @@ import (
 	"encoding/hex"
 	"errors"
 	"fmt"
+	"sync"
 
 	blsu "github.com/protolambda/bls12-381-util"
 	"github.com/protolambda/ztyp/codec"
@@ -71,12 +72,17 @@ func (p *BLSPubkey) Pubkey() (*blsu.Pubkey, error) {
 	return &pub, nil
 }
 
+// CachedPubkey is shared between all users of a PubkeyCache: it must not be copied after first use.
 type CachedPubkey struct {
-	Compressed   BLSPubkey
+	Compressed BLSPubkey
+	// guards the lazy decompression
+	lock         sync.Mutex
 	decompressed *blsu.Pubkey
 }
 
 func (c *CachedPubkey) Pubkey() (*blsu.Pubkey, error) {
+	c.lock.Lock()
+	defer c.lock.Unlock()
 	if c.decompressed == nil {
 		pub, err := c.Compressed.Pubkey()
 		if err != nil {
